@@ -193,6 +193,44 @@ def judge(tag: str, got: dict, want_header: bytes, want_blen: int, want_bsha: st
     return None
 
 
+def default_max_file_size() -> int:
+    from nauyaca.protocol import constants as K
+
+    return int(K.DEFAULT_MAX_FILE_SIZE)
+
+
+def write_static(tmp: str, case) -> dict:
+    """Write the file of a static case and say what was configured: the file's size in BYTES, the maximum file size the
+    handler / server is given (`max_rel` = limit minus file size: 0 puts the file exactly ON the configured limit, 1 just
+    below it, -1 just above; None leaves the default) and the hashes of the two byte strings that serving this file may
+    put on the wire (its bytes, or its bytes with CR LF / CR read as LF - see ASSUMPTIONS)."""
+    data = make_str(case["n"], case["fill"], case["seed"]).encode("utf-8")
+    (Path(tmp) / case["meta"]).write_bytes(data)
+    rel = case.get("max_rel")
+    limit = len(data) + rel if rel is not None and len(data) + rel >= 1 else None
+    nl = data.replace(b"\r\n", b"\n").replace(b"\r", b"\n")
+    return {"size": len(data), "limit": limit, "effective": limit if limit is not None else default_max_file_size(),
+            "raw": [len(data), hashlib.sha256(data).hexdigest()], "nl": [len(nl), hashlib.sha256(nl).hexdigest()]}
+
+
+def judge_static(tag: str, f: dict | None, got: dict):
+    """Property text: static files of every size up to the configured maximum arrive as 2x header + exactly the file's
+    bytes.  `f` = write_static(...); the files of this module are regular, readable and valid UTF-8, so a file whose size
+    is within the limit has no other legal answer.  (A file above the limit: no rule here.)"""
+    if not f or f["size"] > f["effective"] or got.get("error"):
+        return None
+    head = bytes.fromhex(got["header"])
+    cfg = f"configured max_file_size {f['limit']}" if f["limit"] is not None else f"default max_file_size {f['effective']}"
+    if not head.startswith(b"20 "):
+        return (f"{tag}-static-within-limit-not-served",
+                f"a regular UTF-8 file of {f['size']} bytes ({cfg}: the file is {'exactly at' if f['size'] == f['effective'] else 'below'} the limit) "
+                f"was answered with {head[:70]!r} and {got['blen']} body bytes instead of '20 <mime>' and the file's bytes")
+    if [got["blen"], got["bsha"]] not in (f["raw"], f["nl"]):
+        return (f"{tag}-static-body-not-the-file",
+                f"a file of {f['size']} bytes ({cfg}) was served with {got['blen']} body bytes that are not the file's bytes")
+    return None
+
+
 def stall_seconds() -> float:
     """One stall of the `stall` reader, on the server's clock: longer than asyncio's default
     ssl_shutdown_timeout (30 s), shorter than the time nauyaca grants for the TLS shutdown
@@ -250,12 +288,16 @@ class Pump(Family):
 
     # deterministic enumerations, divided among the shards with self.share (never cut with [:n])
     DENSE = [(sz, kind, reader) for sz in BOUNDARY for kind in ("bytes", "str", "static") for reader in ("fast", "slow", "bursty")]
+    # static files exactly ON the configured maximum file size (rel 0) and one byte below it (rel 1), for limits around the
+    # record / piece boundaries and for tiny ones; -1 = one byte above the limit (no rule: whatever is answered must arrive intact)
+    LIMIT = [(sz, rel, reader) for k, sz in enumerate([1, 2, 3, 8192, 16384, 16385, 65535, 65536, 65537, 131072, 262145, MIB, MIB + 1])
+             for rel, reader in ((0, ("fast", "slow", "bursty")[k % 3]), (1, ("bursty", "fast", "slow")[k % 3]), (0 if k % 2 else -1, ("slow", "bursty", "fast")[k % 3]))]
     BIG = [(10 * MIB, "bytes", "fast"), (100 * MIB - 1, "bytes", "bursty"), (10 * MIB + 1, "str", "slow"), (100 * MIB, "static", "fast"),
            (10 * MIB - 1, "static", "bursty"), (100 * MIB - 1, "str", "fast"), (24 * MIB + 7, "bytes", "slow"), (3 * MIB + 1, "str", "bursty"),
            (64 * MIB, "bytes", "fast"), (100 * MIB - 1, "static", "bursty"), (7 * MIB, "str", "fast"), (2 * MIB + 1, "static", "slow"),
            (10 * MIB, "str", "bursty"), (50 * MIB + 3, "bytes", "bursty"), (100 * MIB, "bytes", "fast"), (5 * MIB, "static", "fast")]
 
-    def _case(self, rng: random.Random, sz: int, kind: str | None = None, reader: str | None = None):
+    def _case(self, rng: random.Random, sz: int, kind: str | None = None, reader: str | None = None, max_rel: int | None | str = "any"):
         d = gen_dims(rng, sz, True)
         kind = kind or rng.choice(["bytes", "str", "str", "static"])
         src = "static" if kind == "static" else rng.choice(["sync", "sync", "async"])
@@ -263,6 +305,8 @@ class Pump(Family):
             d["btype"], d["status"] = "str", 20
             d["fill"] = rng.choice(FILLS_S[:4])   # files must be valid UTF-8 text
             d["meta"] = rng.choice(["f.gmi", "f.txt", "f.bin"])   # file name; the handler derives the MIME type
+            # the configured maximum file size relative to the file's size in bytes (None: the default limit)
+            d["max_rel"] = rng.choice([None, None, 0, 0, 1, -1, 1000]) if max_rel == "any" else max_rel
         elif kind != d["btype"]:
             d["btype"] = kind
             d["fill"] = rng.choice(FILLS_B if kind == "bytes" else FILLS_S)
@@ -285,6 +329,9 @@ class Pump(Family):
         for sz, kind, reader in self.share(self.DENSE):
             yield self._case(rng, sz, kind, reader)
             count += 1
+        for sz, rel, reader in self.share(self.LIMIT):
+            yield self._case(rng, sz, "static", reader, max_rel=rel)
+            count += 1
         for sz in sizes(rng, max(0, n - count), []):
             yield self._case(rng, sz)
 
@@ -294,13 +341,13 @@ class Pump(Family):
         from nauyaca.server.protocol import GeminiServerProtocol
 
         returned: list = []
-        tmp = None
+        tmp = finfo = None
         if case["src"] == "static":
             from nauyaca.server.handler import StaticFileHandler
 
             tmp = tempfile.mkdtemp(prefix="nv-")
-            (Path(tmp) / case["meta"]).write_bytes(make_str(case["n"], case["fill"], case["seed"]).encode("utf-8"))
-            sh = StaticFileHandler(Path(tmp))
+            finfo = write_static(tmp, case)
+            sh = StaticFileHandler(Path(tmp)) if finfo["limit"] is None else StaticFileHandler(Path(tmp), max_file_size=finfo["limit"])
             url = f"gemini://localhost/{case['meta']}"
 
             def handler(req):
@@ -334,7 +381,7 @@ class Pump(Family):
         if got.get("error"):
             raise RuntimeError(f"harness: TLS handshake with the pump failed: {got}")
         if len(returned) != 1:
-            return {"got": got, "handler_calls": len(returned), "want": None}
+            return {"got": got, "handler_calls": len(returned), "want": None, "file": finfo}
         resp = returned[0]
         wh, wb = wire_of(resp)
         want = {"header": wh.hex(), "blen": len(wb), "bsha": hashlib.sha256(wb).hexdigest()}
@@ -344,7 +391,7 @@ class Pump(Family):
                                               "big": big, "blen": len(wb)}
         for k in ("records", "tcp"):
             got[k + "_n"] = len(got[k])
-        return {"got": got, "handler_calls": 1, "want": want}
+        return {"got": got, "handler_calls": 1, "want": want, "file": finfo}
 
     # -- model -------------------------------------------------------------------------------
     def model(self, case):
@@ -376,7 +423,7 @@ class Pump(Family):
         if obs["handler_calls"] != 1:
             return ("pump-handler-calls", f"the handler ran {obs['handler_calls']} times for one request")
         w = obs["want"]
-        return judge("pump", obs["got"], bytes.fromhex(w["header"]), w["blen"], w["bsha"])
+        return judge("pump", obs["got"], bytes.fromhex(w["header"]), w["blen"], w["bsha"]) or judge_static("pump", obs.get("file"), obs["got"])
 
     def key(self, case, obs):
         # at most 40 classes are printed into the evidence, the rare ones (largest sizes) must stay visible
@@ -385,7 +432,8 @@ class Pump(Family):
             return "XL >=100MiB-1"
         cls = "R record/buffer boundary 16K+-2, 64K+-2" if (16382 <= n <= 16386 or 65534 <= n <= 65538) else "S <64K" if n < 65534 else \
             "M <=2MiB" if n <= 2 * MIB else "L >2MiB"
-        return f"{cls} | {'static' if case['src'] == 'static' else case['btype']} | {case['reader']}"
+        lim = " | file ON the configured max_file_size" if case["src"] == "static" and case.get("max_rel") == 0 else ""
+        return f"{cls} | {'static' if case['src'] == 'static' else case['btype']} | {case['reader']}{lim}"
 
     def shrink(self, case, bad):
         return case
@@ -419,6 +467,9 @@ class Live(Family):
             mode = "static" if i % 3 == 1 else "factory"
             if mode == "static":
                 d["btype"], d["status"], d["fill"], d["meta"] = "str", 20, rng.choice(FILLS_S[:4]) if sz <= 4 * MIB else "ascii", rng.choice(["f.gmi", "f.txt"])
+                # start_server(max_file_size=...) relative to the file's size in bytes: the file lies exactly ON the configured limit (0),
+                # one byte below it (1), or the default limit applies (None).  Quick: the one static case sits on the limit
+                d["max_rel"] = rng.choice([0, 0, 1, None]) if thorough else 0
             d.update({"mode": mode, "supplied": rng.random() < 0.5, "reader": rng.choice(["fast", "slow", "bursty"]) if sz <= 4 * MIB else rng.choice(["fast", "bursty"]),
                       "sndbuf": rng.choice([None, 4096, 16384]), "rcvbuf": rng.choice([None, 2048, 8192])})
             # bytes the client sends after its request line (a sloppy or hostile client): they never change what it receives (C07), also
@@ -451,11 +502,11 @@ class Live(Family):
         from nauyaca.server import handler as H
 
         returned: list = []
-        tmp = None
+        tmp = finfo = None
         orig = H.StaticFileHandler.handle
         if case["mode"] == "static":
             tmp = tempfile.mkdtemp(prefix="nv-")
-            (Path(tmp) / case["meta"]).write_bytes(make_str(case["n"], case["fill"], case["seed"]).encode("utf-8"))
+            finfo = write_static(tmp, case)
             url = f"gemini://localhost/{case['meta']}"
 
             def spy(self_, request):
@@ -480,11 +531,12 @@ class Live(Family):
 
                     return later()
                 return r
-        obs: dict = {}
+        obs: dict = {"file": finfo}
         try:
             for backend in ("std", "pyo"):
                 sink = tls_peer._Sink()
-                kw = {"mode": "start_server", "docroot": tmp, "supplied": case["supplied"]} if case["mode"] == "static" else {"mode": "factory", "handler": handler}
+                kw = {"mode": "start_server", "docroot": tmp, "supplied": case["supplied"], "max_file_size": finfo["limit"]} if case["mode"] == "static" else \
+                    {"mode": "factory", "handler": handler}
                 with tls_live.LiveServer(backend, sndbuf=case["sndbuf"], **kw) as srv:
                     def after_request(sock, srv=srv):
                         if case.get("late_line"):
@@ -568,6 +620,9 @@ class Live(Family):
                             f"(end of stream: {g['eof']}); the client was still reading, with {case.get('stalls', 1)} pause(s) of {stall_seconds()} s each in the middle of the transfer "
                             f"(reader: {case['reader']}, SO_SNDBUF {case['sndbuf']}, SO_RCVBUF {case['rcvbuf']}, {g.get('elapsed', 0)} s real time)")
                 return v
+            v = judge_static(f"live-{b}", obs.get("file"), obs[b])
+            if v:
+                return v
         if (obs["std"]["header"], obs["std"]["blen"], obs["std"]["bsha"]) != (obs["pyo"]["header"], obs["pyo"]["blen"], obs["pyo"]["bsha"]):
             return ("live-backends-differ", "the two TLS backends delivered different bytes for the same response")
         return None
@@ -575,7 +630,8 @@ class Live(Family):
     def key(self, case, obs):
         n = obs["want"]["blen"] if obs.get("want") else -1
         cls = "<=16K" if n <= 16384 else "<=64K" if n <= 65536 else "<=2M" if n <= 2 * MIB else "<=10M+1" if n <= 10 * MIB + 1 else "<100M-1" if n < 100 * MIB - 1 else ">=100M-1"
-        return f"{cls} {case['reader']} {'shrunk' if case['sndbuf'] or case['rcvbuf'] else 'default'} socket buffers, backends {obs['std']['used']}+{obs['pyo']['used']}"
+        lim = ", file ON the configured max_file_size" if case.get("max_rel") == 0 and obs.get("file") and obs["file"]["limit"] else ""
+        return f"{cls} {case['reader']} {'shrunk' if case['sndbuf'] or case['rcvbuf'] else 'default'} socket buffers, backends {obs['std']['used']}+{obs['pyo']['used']}{lim}"
 
 
 # ------------------------------------------------------------------------------------------------
@@ -603,11 +659,23 @@ class Concurrent(Family):
         (["stall", "fast"], [800000, 100]),
     ]
 
+    # the handler renders every binary body into ONE scratch buffer it owns and returns that buffer (`buffer`: the bytearray
+    # itself, all bodies equally long) or a view of its first n bytes (`view`): a response is what the buffer holds when the
+    # handler returns; the buffer is overwritten by the next request while earlier responses are still parked half-written.
+    # The later bodies are as large as the parked one, so that they reach the part of the buffer that is still unsent
+    POOLED = [
+        (["hold", "fast"], [1200000, 1200000], "buffer"),
+        (["hold", "bursty", "fast"], [900000, 1000000, 300000], "view"),
+        (["stall", "fast"], [800000, 800000], "view"),
+    ]
+
     def gen(self, rng: random.Random, n: int):
         count = 0
         for readers, szs in self.share(self.SHAPES):
             yield self._case(rng, readers, szs)
             count += 1
+        for readers, szs, pool in self.share(self.POOLED):
+            yield self._case(rng, readers, szs, pool)     # in addition to the n cases
         while count < n:
             k = rng.choice([2, 2, 3])
             readers = [rng.choice(["hold", "hold", "abort", "fast", "slow", "bursty", "stall"]) for _ in range(k)]
@@ -617,16 +685,24 @@ class Concurrent(Family):
                 readers[-1] = "fast"
             szs = [rng.randint(400000, 3 * MIB) if r in ("hold", "abort", "stall") else rng.choice([rng.randint(0, 300), 16385, 65537, rng.randint(1000, 400000)])
                    for r in readers]
-            yield self._case(rng, readers, szs)
+            pool = rng.choice([None, None, "view", "buffer"])
+            if pool:
+                big = max(szs)
+                szs = [big if pool == "buffer" else rng.randint(big // 2, big) if r not in ("hold", "abort", "stall") else sz for r, sz in zip(readers, szs)]
+            yield self._case(rng, readers, szs, pool)
             count += 1
 
-    def _case(self, rng, readers, szs):
+    def _case(self, rng, readers, szs, pool=None):
         clients = []
         for r, sz in zip(readers, szs):
             d = gen_dims(rng, sz, True)
+            if pool:
+                d["btype"], d["fill"], d["status"] = "bytes", rng.choice(["rand", "rand", "counter"]), 20
             d.update({"reader": r, "rcvbuf": rng.choice([2048, 8192, None]) if r not in ("hold", "abort", "stall") else rng.choice([2048, 8192])})
             clients.append(d)
-        return {"clients": clients, "sndbuf": rng.choice([4096, 16384]), "async": rng.random() < 0.3}
+        # a pooled buffer goes with a synchronous handler: the body is what the buffer holds at the moment the handler returns to the
+        # server (the result of a coroutine handler reaches the server one loop iteration after the coroutine finished)
+        return {"clients": clients, "sndbuf": rng.choice([4096, 16384]), "async": not pool and rng.random() < 0.3, "pool": pool}
 
     def impl(self, case):
         from nauyaca.protocol.response import GeminiResponse
@@ -634,10 +710,17 @@ class Concurrent(Family):
         bodies = [make_body(c) for c in case["clients"]]
         calls: list[str] = []
 
+        pool = case.get("pool")
+        scratch = bytearray(max(len(b) for b in bodies)) if pool else None
+
         def mk(req):
             i = int(req.path[2:])
             calls.append(req.path)
             c = case["clients"][i]
+            if pool and c["btype"] == "bytes" and len(bodies[i]):
+                k = len(bodies[i])
+                scratch[:k] = bodies[i]           # "render" this response into the reusable buffer (same length: no resize)
+                return GeminiResponse(c["status"], c["meta"], scratch if pool == "buffer" and k == len(scratch) else memoryview(scratch)[:k])
             return GeminiResponse(c["status"], c["meta"], bodies[i])
 
         if case["async"]:
@@ -703,13 +786,14 @@ class Concurrent(Family):
                     continue
                 v = judge(f"concurrent-{b}", g, bytes.fromhex(w["header"]), w["blen"], w["bsha"])
                 if v:
-                    return (v[0], f"{who}: {v[1]}")
+                    how = "; the handler returned its reusable scratch buffer as the body and rendered the later responses into the same buffer" if case.get("pool") else ""
+                    return (v[0], f"{who}: {v[1]}{how}")
             if len(obs[b + "_calls"]) != len(obs["want"]):
                 return (f"concurrent-{b}-handler-calls", f"{len(obs[b + '_calls'])} handler calls for {len(obs['want'])} requests")
         return None
 
     def key(self, case, obs):
-        return f"{len(case['clients'])} clients: {'+'.join(sorted(c['reader'] for c in case['clients']))}"
+        return f"{len(case['clients'])} clients: {'+'.join(sorted(c['reader'] for c in case['clients']))}" + (f" | handler reuses one {case['pool']}" if case.get("pool") else "")
 
 
 FAMILIES = [Pump(), Live(), Concurrent()]
